@@ -196,6 +196,35 @@ type MessageDebug struct {
 
 func (*MessageDebug) GetID() uint32 { return 50020 }
 
+// structs that the library may or may not accept (the documentation is silent): IF Initialize accepts one, it is a user
+// struct like any other and must follow the spec layout
+type MessageVfMaybeEnumInt16 struct {
+	A uint8
+	B vfEnumA `mavenum:"int16"`
+	C uint16
+	D uint8
+}
+
+func (*MessageVfMaybeEnumInt16) GetID() uint32 { return 50030 }
+
+type MessageVfMaybeEnumInt8Array struct {
+	A [3]vfEnumB `mavenum:"int8"`
+	B uint32
+}
+
+func (*MessageVfMaybeEnumInt8Array) GetID() uint32 { return 50031 }
+
+type MessageVfMaybeEnumUint64 struct {
+	A uint8
+	B vfEnumA `mavenum:"uint64"`
+}
+
+func (*MessageVfMaybeEnumUint64) GetID() uint32 { return 50032 }
+
+func maybeMessages() []message.Message {
+	return []message.Message{&MessageVfMaybeEnumInt16{}, &MessageVfMaybeEnumInt8Array{}, &MessageVfMaybeEnumUint64{}}
+}
+
 func userMessages() []message.Message {
 	return []message.Message{
 		&MessageVfOne{}, &MessageVfAllTypes{}, &MessageVfStable{}, &MessageVfExtMix{}, &MessageVfMavname{},
@@ -209,7 +238,13 @@ func userMessages() []message.Message {
 // userMsgInfos initialises the user structs with the real codec and the reference layout.
 func userMsgInfos() ([]*msgInfo, error) {
 	var out []*msgInfo
-	for _, m := range userMessages() {
+	msgs := userMessages()
+	for _, m := range maybeMessages() {
+		if err := (&message.ReadWriter{Message: m}).Initialize(); err == nil {
+			msgs = append(msgs, m) // accepted: then it counts
+		}
+	}
+	for _, m := range msgs {
 		mi := &msgInfo{Name: "user." + reflect.TypeOf(m).Elem().Name(), Msg: m, Type: reflect.TypeOf(m).Elem()}
 		if strings.HasSuffix(mi.Type.PkgPath(), "twin/common") {
 			mi.Name = "twin.common." + mi.Type.Name()
